@@ -198,6 +198,7 @@ for _n in _ANY_UNARY + _ANY_BINARY:
 class _AnyAttribute:
     params = dict(name=ObjOf(STRING_X))
     never_returns = True
+    dispatch = True  # overridden by Set, SerializableType, CompositeType (each with its own contract)
     raises = {"UndefinedAttributeError": lambda s: True}
 
 
